@@ -1,0 +1,37 @@
+//go:build verif
+
+package verifhooks
+
+import "oras.land/oras-go/v2/internal/syncutil"
+
+// This file only re-exports internal/syncutil.Merge and Pool (instantiated at
+// int) for the verification harness of property C14.
+
+// MergeInt wraps syncutil.Merge[int].
+type MergeInt struct{ m syncutil.Merge[int] }
+
+// Do re-exports Merge.Do.
+func (m *MergeInt) Do(item int, prepare func() error, resolve func(items []int) error) error {
+	return m.m.Do(item, prepare, resolve)
+}
+
+// MergePool wraps syncutil.Pool[syncutil.Merge[int]], the shape of
+// Repository.referrersMergePool.
+type MergePool struct {
+	p syncutil.Pool[syncutil.Merge[int]]
+}
+
+// Do performs Pool.Get(key), Merge.Do and the release function exactly like
+// manifestStore.updateReferrersIndex does.
+func (p *MergePool) Do(key any, item int, prepare func() error, resolve func(items []int) error) error {
+	merge, done := p.p.Get(key)
+	defer done()
+	return merge.Do(item, prepare, resolve)
+}
+
+// Get re-exports Pool.Get; the returned identity token is the address of the
+// pooled Merge value.
+func (p *MergePool) Get(key any) (ident any, done func()) {
+	m, done := p.p.Get(key)
+	return m, done
+}
